@@ -22,3 +22,9 @@ pub mod pub_c07_defrag;
 
 #[path = "pub_c03_record.rs"]
 pub mod pub_c03_record;
+
+#[path = "pub_c03_messages.rs"]
+pub mod pub_c03_messages;
+
+#[path = "pub_c04_handshake.rs"]
+pub mod pub_c04_handshake;
